@@ -76,6 +76,10 @@ func On[T Item](it Item, fn func(*T) error) error {
 		return fn(ob)
 	}
 	return OnItemCollection(it, func(col *ItemCollection) error {
+		if col == nil {
+			// a nil list is handed to the callback as a nil pointer: nothing to visit
+			return nil
+		}
 		for _, it := range *col {
 			if err := On(it, fn); err != nil {
 				return err
@@ -95,6 +99,10 @@ func OnObject(it Item, fn WithObjectFn) error {
 	}
 	if IsItemCollection(it) {
 		return OnItemCollection(it, func(col *ItemCollection) error {
+			if col == nil {
+				// a nil list is handed to the callback as a nil pointer: nothing to visit
+				return nil
+			}
 			for _, it := range *col {
 				if IsLink(it) {
 					continue
@@ -124,6 +132,10 @@ func OnActivity(it Item, fn WithActivityFn) error {
 	}
 	if IsItemCollection(it) {
 		return OnItemCollection(it, func(col *ItemCollection) error {
+			if col == nil {
+				// a nil list is handed to the callback as a nil pointer: nothing to visit
+				return nil
+			}
 			for _, it := range *col {
 				if IsLink(it) {
 					continue
@@ -154,6 +166,10 @@ func OnIntransitiveActivity(it Item, fn WithIntransitiveActivityFn) error {
 	}
 	if IsItemCollection(it) {
 		return OnItemCollection(it, func(col *ItemCollection) error {
+			if col == nil {
+				// a nil list is handed to the callback as a nil pointer: nothing to visit
+				return nil
+			}
 			for _, it := range *col {
 				if err := OnIntransitiveActivity(it, fn); err != nil {
 					return err
@@ -180,6 +196,10 @@ func OnQuestion(it Item, fn WithQuestionFn) error {
 	}
 	if IsItemCollection(it) {
 		return OnItemCollection(it, func(col *ItemCollection) error {
+			if col == nil {
+				// a nil list is handed to the callback as a nil pointer: nothing to visit
+				return nil
+			}
 			for _, it := range *col {
 				if err := OnQuestion(it, fn); err != nil {
 					return err
@@ -206,6 +226,10 @@ func OnActor(it Item, fn WithActorFn) error {
 	}
 	if IsItemCollection(it) {
 		return OnItemCollection(it, func(col *ItemCollection) error {
+			if col == nil {
+				// a nil list is handed to the callback as a nil pointer: nothing to visit
+				return nil
+			}
 			for _, it := range *col {
 				if IsLink(it) {
 					continue
